@@ -1424,6 +1424,7 @@ func genC17(g *G, sc *Scenario, tier string, seed uint64) {
 		id := fmt.Sprint(rej[0])
 		sc.Ops = append(sc.Ops, Op{K: "batch", DS: "srcA", Ents: []Ent{{"id": id, "props": map[string]any{MkS + "n": float64(1000), MkS + "corrected": true}, "refs": map[string]any{}}}})
 		sc.Note += " corrected-entity"
+		cfg["batchSize"] = 1 // (the one rejection is then that of the entity alone)
 	}
 	sc.Ops = append(sc.Ops, Op{K: "tick", S: "job1", M: spec})
 	if !killed && g.P(0.3) {
